@@ -8,6 +8,8 @@
 #include <unistd.h>
 
 #include "vh.h"
+#include <pthread.h>
+#include <sys/syscall.h>
 
 /* ------------------------------------------------------------ PRNG */
 
@@ -430,4 +432,94 @@ long vh_env_long(const char *name, long dflt) {
   const char *v = getenv(name);
   if (v == NULL || *v == 0) return dflt;
   return strtol(v, NULL, 0);
+}
+
+/* ------------------------------------------------------------------ */
+/* stuck-call watcher (see vh.h) */
+
+void (*vh_watch_thread_init)(void) = NULL;
+static struct {
+  const char *prop;
+  uint64_t (*fg)(void);
+  uint64_t (*io)(void);
+  uint64_t io_limit;
+  const char *(*what)(void);
+} W;
+
+/* 1 = every thread of the process except `self` is blocked (state S or D is not enough: only S, i.e.
+   interruptible sleep as in futex/cond waits); `desc` gets "tid:state ..." */
+static int all_other_threads_blocked(long self, char *desc, size_t cap) {
+  DIR *d = opendir("/proc/self/task");
+  struct dirent *e;
+  int all = 1, n = 0;
+  size_t pos = 0;
+  if (d == NULL) return 0;
+  desc[0] = 0;
+  while ((e = readdir(d)) != NULL) {
+    char path[96], buf[512];
+    int fd;
+    ssize_t r;
+    char *q;
+    long tid = atol(e->d_name);
+    if (tid <= 0 || tid == self) continue;
+    snprintf(path, sizeof(path), "/proc/self/task/%ld/stat", tid);
+    fd = open(path, O_RDONLY);
+    if (fd < 0) continue;
+    r = read(fd, buf, sizeof(buf) - 1);
+    close(fd);
+    if (r <= 0) continue;
+    buf[r] = 0;
+    q = strrchr(buf, ')');
+    if (q == NULL || q[1] != ' ') continue;
+    n++;
+    if (q[2] != 'S') all = 0;
+    if (pos + 24 < cap) pos += (size_t)snprintf(desc + pos, cap - pos, "%ld:%c ", tid, q[2]);
+  }
+  closedir(d);
+  return n > 0 && all;
+}
+
+static void *watch_main(void *arg) {
+  uint64_t last_fg, last_io, io_base;
+  int quiet = 0;
+  long self = (long)syscall(SYS_gettid);
+  (void)arg;
+  if (vh_watch_thread_init) vh_watch_thread_init();
+  last_fg = W.fg(); last_io = io_base = W.io();
+  for (;;) {
+    uint64_t f, i;
+    char desc[400];
+    usleep(50000);
+    f = W.fg(); i = W.io();
+    if (f != last_fg) { last_fg = f; io_base = i; last_io = i; quiet = 0; continue; }
+    if (i - io_base > W.io_limit) {
+      vh_violation(W.prop, "call-stuck-while-background-keeps-working",
+                   "%s: the driving thread has not completed a call while the library made %llu intercepted system calls "
+                   "(limit %llu): a call that never returns while background work is retried without end",
+                   W.what ? W.what() : "", (unsigned long long)(i - io_base), (unsigned long long)W.io_limit);
+      vh_finish();
+      _exit(0);
+    }
+    if (i != last_io) { last_io = i; quiet = 0; continue; }
+    if (all_other_threads_blocked(self, desc, sizeof(desc))) quiet++; else quiet = 0;
+    if (quiet >= 200) {
+      vh_violation(W.prop, "call-stuck-all-threads-blocked",
+                   "%s: no call completed, no system call was made and every thread was blocked at 200 consecutive samples "
+                   "(threads: %s): a call that never returns", W.what ? W.what() : "", desc);
+      vh_finish();
+      _exit(0);
+    }
+  }
+  return NULL;
+}
+
+void vh_watch_start(const char *prop, uint64_t (*fg)(void), uint64_t (*io)(void), uint64_t io_limit,
+                    const char *(*what)(void)) {
+  pthread_t t;
+  pthread_attr_t a;
+  W.prop = prop; W.fg = fg; W.io = io; W.io_limit = io_limit; W.what = what;
+  pthread_attr_init(&a);
+  pthread_attr_setdetachstate(&a, PTHREAD_CREATE_DETACHED);
+  if (pthread_create(&t, &a, watch_main, NULL) != 0) vh_fatal("cannot start the watcher thread");
+  pthread_attr_destroy(&a);
 }
